@@ -204,23 +204,31 @@ package wallet
 //@   tags C19
 //@   requires w != nil && w.db != nil && winv()
 //@   ensures @past [C19] winv()
+// a pending melt found paid: the counter that moves is the one of the keyset recorded with the quote when the
+// melt was made (the keyset its change outputs were derived from), by the number of change signatures
+//@   calls (storage.WalletDB).IncrementKeysetCounter asserts @changekeyset [C19] old(wdb.meltchange)[quoteId] != "" ==> keysetId == old(wdb.meltchange)[quoteId]
+//@   calls (storage.WalletDB).IncrementKeysetCounter asserts @changecount [C19] num == len(quoteStateResponse.Change) % 4294967296
 
 //@ func (*Wallet).Melt
 //@   tags C19
 //@   requires w != nil && w.db != nil && w.mints != nil && winv()
+// the change outputs come from the active keyset's counter; a melt that stays pending records that keyset with
+// the quote, a melt paid at once advances that keyset's counter by the number of change signatures
+//@   calls (*Wallet).createBlindedMessages asserts @changesrc [C19] keysetId == activeKeyset.Id
+//@   calls (storage.WalletDB).SaveMeltQuote asserts @changekeyset [C19] mq.State == nut05.Pending ==> mq.ChangeKeysetId == activeKeyset.Id && mq.QuoteId == quoteId
+//@   calls (storage.WalletDB).IncrementKeysetCounter asserts @changekeyset [C19] keysetId == activeKeyset.Id && num == len(meltBolt11Response.Change) % 4294967296
 //@   calls (*Wallet).createBlindedMessages asserts @fresh [C19] counter == nil || *counter >= wal.signedupto[keysetId]
 
-// A-NEWMINT (assumed, listed in the evidence): AddMint is only called for a mint that is not in w.mints,
-// and the keysets of such a mint have no stored counter and nothing derived or signed from them, so the
-// records it saves (counter 0, as fetched from the mint) keep the stored counters past everything signed.
-// The known finding of swapToTrusted (below) is exactly a history in which this is false.
+// AddMint saves the keyset records of the mint with the counter the wallet has stored for them
+// (0 for keysets it does not hold yet): adding a mint - also one that is already known under a
+// differently spelled URL - never moves a stored counter.
 //@ func (*Wallet).AddMint
 //@   tags C19
-//@   trusted
-//@   fresh
-//@   modifies wdb.counter, map(w.mints)
-//@   ensures r1 == nil ==> r0 != nil
-//@   assumes old(winv()) ==> winv()
+//@   requires w != nil && w.db != nil && w.mints != nil
+//@   calls (storage.WalletDB).SaveKeyset asserts @keepscounter [C19] ks.Counter == wdb.counter[ks.Id]
+//@   ensures @samecounters [C19] forall id Str :: wdb.counter[id] == old(wdb.counter)[id]
+//@   ensures @nonnil [C19] r1 == nil ==> r0 != nil
+//@   loop range(inactiveKeysets) invariant forall id Str :: wdb.counter[id] == old(wdb.counter)[id]
 
 // A swap request derives its outputs from the STORED counter of the mint's active keyset (fresh:
 // nothing at or above it may have been signed), for exactly that keyset.
